@@ -1,6 +1,7 @@
 package satisfaction_levels
 
 import (
+	"fmt"
 	"github.com/Azbesciak/RealDecisionMaker/lib/model"
 	"github.com/Azbesciak/RealDecisionMaker/lib/utils"
 )
@@ -15,7 +16,12 @@ type IdealCoefficientSatisfactionLevels struct {
 	criteria             model.Criteria
 	criteriaValuesRanges []utils.ValueRange
 	manager              CoefficientManager
+	generatedLevels      int
 }
+
+// a coefficient in (0,1) can still be so small (1e-20, or 0.9999999 as a multiplier) that the
+// level never - or only after billions of iterations - reaches its bound and the request is never answered
+const maxGeneratedLevels = 10000
 
 type CoefficientManager interface {
 	Validate(params *IdealCoefficientSatisfactionLevels)
@@ -33,6 +39,7 @@ func (s *IdealCoefficientSatisfactionLevels) Initialize(dmp *model.DecisionMakin
 		s.criteriaValuesRanges[i] = *model.CriteriaValuesRange(&alternatives, &c)
 	}
 	s.currentValue = s.manager.InitialValue(s)
+	s.generatedLevels = 0
 }
 
 func (s *IdealCoefficientSatisfactionLevels) HasNext() bool {
@@ -40,6 +47,11 @@ func (s *IdealCoefficientSatisfactionLevels) HasNext() bool {
 }
 
 func (s *IdealCoefficientSatisfactionLevels) Next() model.Weights {
+	s.generatedLevels++
+	if s.generatedLevels > maxGeneratedLevels {
+		panic(fmt.Errorf("satisfaction coefficient %v generates more than %d satisfaction levels between %v and %v",
+			s.Coefficient, maxGeneratedLevels, s.MinValue, s.MaxValue))
+	}
 	weights := make(model.Weights, len(s.criteria))
 	for i, c := range s.criteria {
 		valRange := s.criteriaValuesRanges[i]
